@@ -32,6 +32,7 @@ PROPS_FILE = "theories/Props/C20.v"
 EXTRACT = ("theories/Extract/XC20.v", "c20", ["entry_run", "entry_hi", "entry_sig", "entry_check"])
 PYX = {}
 CASE_TIMEOUT = 240
+FORK_TIMEOUT = 20        # per child; the whole case must stay below the core's 60 s stall limit
 RULE = ("one case = one random call history of length 2-12 (repetitions, interleavings, the same function on two "
         "different input sets) over the drivable public functions of the eleven modules (catalog of 211 calls on "
         "132 functions), on input arrays shared by all calls of the history, each array in a dtype from "
@@ -108,9 +109,9 @@ def gen_files(ctx):
               sum(1 for e in side["functions"] if e["inplace"] and not e["exempt"]))
     for e in side["functions"]:
         bad = []
-        if any(k != 0 for _, k in e["fills"]):
+        if any(k not in (0, 3) for _, k in e["fills"]):
             bad.append("non-constant module state: " + "; ".join(
-                "%s %s (%s, line %s)" % (g, kind, form, line) for g, kind, form, line in e["fill_sites"] if kind != "KConst"))
+                "%s %s (%s, line %s)" % (g, kind, form, line) for g, kind, form, line in e["fill_sites"] if kind not in ("KConst", "KMemo")))
         if e["unguarded_reads"]:
             bad.append("reads lazily filled table before filling it: %s" % e["unguarded_reads"])
         if e["draws_global"] and not e["seed_dominated"]:
@@ -149,7 +150,7 @@ def _catalog():
         cat.append((key, fn, roles, f))
     idx = [1, 2, 3]
     for nm in ("bridge clean diag endpoints branchpoints fill fill4 hbreak vbreak majority remove spur thicken thin "
-               "skeletonize branchings").split():   # `life` is left out: it ignores `iterations` and never returns
+               "skeletonize branchings life").split():
         add(nm, "cpmorphology." + nm, "B", getattr(M, nm))
         add(nm + "+mask", "cpmorphology." + nm, "BM", getattr(M, nm))
     add("thin-it3", "cpmorphology.thin", "B", lambda b: M.thin(b, iterations=3))
@@ -246,7 +247,125 @@ def _catalog():
     add("ellipse_from_second_moments_ijv", "cpmorphology.ellipse_from_second_moments_ijv", "L",
         lambda l: M.ellipse_from_second_moments_ijv(np.argwhere(l > 0)[:, 0], np.argwhere(l > 0)[:, 1],
                                                     np.ones(int(np.sum(l > 0))), l[l > 0].astype(int), idx, True))
+    add("life-it3", "cpmorphology.life", "B", lambda b: M.life(b, iterations=3))
+    # --- every optional / auxiliary array-like parameter driven by a caller-owned array of the history
+    for nm in "grey_erosion grey_dilation opening closing white_tophat black_tophat".split():
+        add(nm + "+fp", "cpmorphology." + nm, "If", lambda a, fp, f=getattr(M, nm): f(a, footprint=fp))
+        add(nm + "+fp+mask", "cpmorphology." + nm, "IMf", lambda a, m, fp, f=getattr(M, nm): f(a, mask=m, footprint=fp))
+    add("grey_reconstruction+fp", "cpmorphology.grey_reconstruction", "IG",
+        lambda a, fp: M.grey_reconstruction(a // 2 if a.dtype.kind in "iub" else a * 0.5, a, footprint=fp))
+    add("grey_reconstruction+fp+off", "cpmorphology.grey_reconstruction", "IHo",
+        lambda a, fp, o: M.grey_reconstruction(a // 2 if a.dtype.kind in "iub" else a * 0.5, a, footprint=fp, offset=o))
+    for nm in "grey_erosion grey_dilation opening".split():
+        add(nm + "+fpG", "cpmorphology." + nm, "IG", lambda a, fp, f=getattr(M, nm): f(a, footprint=fp))
+        add(nm + "+fpH", "cpmorphology." + nm, "IH", lambda a, fp, f=getattr(M, nm): f(a, footprint=fp))
+    add("is_local_maximum+fpG", "cpmorphology.is_local_maximum", "ILG", M.is_local_maximum)
+    # since /repo 6f73ae9 grey_reconstruction converts its footprint to a boolean copy: every dtype again
+    add("grey_reconstruction+fp-anydtype", "cpmorphology.grey_reconstruction", "If",
+        lambda a, fp: M.grey_reconstruction(a // 2 if a.dtype.kind in "iub" else a * 0.5, a, footprint=fp))
+    add("grey_reconstruction+st-anydtype+off", "cpmorphology.grey_reconstruction", "Iso",
+        lambda a, fp, o: M.grey_reconstruction(a // 2 if a.dtype.kind in "iub" else a * 0.5, a, footprint=fp, offset=o))
+    add("grey_reconstruction-2img", "cpmorphology.grey_reconstruction", "I", lambda a: M.grey_reconstruction(a, a))
+    add("cpmaximum+st", "cpmorphology.cpmaximum", "Is", lambda a, s: M.cpmaximum(a, s))
+    add("cpmaximum+st+off", "cpmorphology.cpmaximum", "Iso", lambda a, s, o: M.cpmaximum(a, s, o))
+    add("regional_maximum+st", "cpmorphology.regional_maximum", "IMs", lambda a, m, s: M.regional_maximum(a, m, s))
+    add("regional_maximum+st-ties", "cpmorphology.regional_maximum", "Is",
+        lambda a, s: M.regional_maximum(a, structure=s, ties_are_ok=True))
+    add("is_local_maximum+fp", "cpmorphology.is_local_maximum", "ILf", M.is_local_maximum)
+    add("is_local_maximum+st", "cpmorphology.is_local_maximum", "ILs", M.is_local_maximum)
+    add("binary_thin+strels", "cpmorphology.binary_thin", "BTS", M.binary_thin)
+    add("make_table+care", "cpmorphology.make_table", "Ts", lambda pat, care: M.make_table(True, pat, care))
+    add("make_table", "cpmorphology.make_table", "T", lambda pat: M.make_table(False, pat))
+    add("index_of", "cpmorphology.index_of", "T", M.index_of)
+    add("table_lookup+tbl", "cpmorphology.table_lookup", "Bt", lambda b, tb: M.table_lookup(b, tb, False, 2))
+    add("table_lookup+tbl-border", "cpmorphology.table_lookup", "Bt", lambda b, tb: M.table_lookup(b, tb, True, 1))
+    for nm in ("convex_hull euler_number calculate_convex_hull_areas calculate_solidity skeleton_length "
+               "minimum_enclosing_circle calculate_perimeters calculate_extents farthest_from_edge get_outline_pts").split():
+        add(nm + "+idx", "cpmorphology." + nm, "Lx", getattr(M, nm))
+    for nm in "median_of_labels maximum_position_of_labels ellipse_from_second_moments".split():
+        add(nm + "+idx", "cpmorphology." + nm, "ILx", getattr(M, nm))
+    add("ellipse_from_second_moments+idx-compact", "cpmorphology.ellipse_from_second_moments", "ILx",
+        lambda a, l, x: M.ellipse_from_second_moments(a, l, x, True))
+    add("ellipse_from_second_moments_ijv+arrays", "cpmorphology.ellipse_from_second_moments_ijv", "vuUwx",
+        M.ellipse_from_second_moments_ijv)
+    add("convex_hull_ijv", "cpmorphology.convex_hull_ijv", "Jx", M.convex_hull_ijv)
+    add("fill_convex_hulls+arrays", "cpmorphology.fill_convex_hulls", "PN", M.fill_convex_hulls)
+    add("feret_diameter+arrays", "cpmorphology.feret_diameter", "PNx", M.feret_diameter)
+    add("minimum_enclosing_circle+hull", "cpmorphology.minimum_enclosing_circle", "LxPN",
+        lambda l, x, p, n: M.minimum_enclosing_circle(l, x, (p, n)))
+    add("all_true", "cpmorphology.all_true", "Bx", lambda b, x: M.all_true(b.ravel()[:12] != 0, x * 3))
+    add("triangle_areas", "cpmorphology.triangle_areas", "hij", M.triangle_areas)
+    add("minimum_distance2+arrays", "cpmorphology.minimum_distance2", "hpiq", M.minimum_distance2)
+    add("slow_minimum_distance2", "cpmorphology.slow_minimum_distance2", "hi", M.slow_minimum_distance2)
+    add("faster_minimum_distance2", "cpmorphology.faster_minimum_distance2", "hpiq", M.faster_minimum_distance2)
+    add("find_visible", "cpmorphology.find_visible", "hq", lambda h, q: M.find_visible(h, q + 20, 0))
+    add("find_farthest+hull", "cpmorphology.find_farthest", "ph", M.find_farthest)
+    add("within_hull+hull", "cpmorphology.within_hull", "ph", M.within_hull)
+    add("is_obtuse", "cpmorphology.is_obtuse", "hij", M.is_obtuse)
+    add("colinear_intersection_test", "cpmorphology.colinear_intersection_test", "hij", M.colinear_intersection_test)
+    add("get_line_pts+arrays", "cpmorphology.get_line_pts", "degy", M.get_line_pts)
+    add("polygon_lines_to_mask+arrays", "cpmorphology.polygon_lines_to_mask", "degy",
+        lambda d, e, g, y: M.polygon_lines_to_mask(d, e, g, y, (12, 12)))
+    add("all_connected_components+arrays", "cpmorphology.all_connected_components", "ab", M.all_connected_components)
+    add("pairwise_permutations+arrays", "cpmorphology.pairwise_permutations", "ab", M.pairwise_permutations)
+    add("single_shortest_paths", "cpmorphology.single_shortest_paths", "W", lambda w: M.single_shortest_paths(0, w))
+    # (angular_distribution swaps the axes of its meshgrid and rejects every non-square image: the medium
+    # input set is square)
+    add("angular_distribution", "cpmorphology.angular_distribution", "L", lambda l: M.angular_distribution(l, 8))
+    add("angular_distribution+w", "cpmorphology.angular_distribution", "LI", lambda l, a: M.angular_distribution(l, 8, a))
+    add("fixup_scipy_ndimage_result", "cpmorphology.fixup_scipy_ndimage_result", "D", M.fixup_scipy_ndimage_result)
+    add("draw_line-copy", "cpmorphology.draw_line", "Lpq",
+        lambda l, p, q: M.draw_line(l.copy(), (int(p[0]) % 8, int(p[1]) % 8), (int(q[0]) % 8, int(q[1]) % 8), 5))
+    add("strel_diamond", "cpmorphology.strel_diamond", "", lambda: M.strel_diamond(2))
+    add("strel_pair", "cpmorphology.strel_pair", "", lambda: M.strel_pair(2, 1))
+    add("strel_periodicline", "cpmorphology.strel_periodicline", "", lambda: M.strel_periodicline(1, 2, 2))
+    add("strel_rectangle", "cpmorphology.strel_rectangle", "", lambda: M.strel_rectangle(3, 5))
+    add("strel_square", "cpmorphology.strel_square", "", lambda: M.strel_square(3))
+    add("pattern_of", "cpmorphology.pattern_of", "", lambda: M.pattern_of(341))
+    add("color_labels-dt", "cpmorphology.color_labels", "L", lambda l: M.color_labels(l, True))
     # filter
+    add("masked_convolution+k", "filter.masked_convolution", "IMk", F.masked_convolution)
+    add("inv_n+arr", "filter.inv_n", "Q", F.inv_n)
+    add("det_n+arr", "filter.det_n", "Q", F.det_n)
+    add("cofactor_n", "filter.cofactor_n", "Q", lambda q: F.cofactor_n(q, 0, 1))
+    add("dot_n+arr", "filter.dot_n", "QR", F.dot_n)
+    add("permutations+arr", "filter.permutations", "x", lambda x: [list(p) for p in F.permutations(x)])
+    add("haralick.cooccurrence+q", "haralick.cooccurrence", "BL", lambda b, l: Hk.cooccurrence(b, l, 1, 1))
+    add("kalman_filter+arrays", "filter.kalman_filter", "nmQR", _kalman2)
+    add("inverse_log_transform", "threshold.inverse_log_transform", "I", lambda a: T.inverse_log_transform(*T.log_transform(a)))
+    add("get_adaptive_threshold", "threshold.get_adaptive_threshold", "IM",
+        lambda a, m: T.get_adaptive_threshold(T.TM_OTSU, a, 0.5, mask=m, adaptive_window_size=4))
+    add("get_per_object_threshold", "threshold.get_per_object_threshold", "IML",
+        lambda a, m, l: T.get_per_object_threshold(T.TM_OTSU, a, 0.5, mask=m, labels=l))
+    add("get_global_threshold", "threshold.get_global_threshold", "IM",
+        lambda a, m: T.get_global_threshold(T.TM_KAPUR, a, mask=m))
+    add("otsu-1d", "otsu.otsu", "D", O.otsu)
+    add("entropy-1d", "otsu.entropy", "D", O.entropy)
+    add("otsu3-1d", "otsu.otsu3", "D", O.otsu3)
+    add("running_variance", "otsu.running_variance", "D", O.running_variance)
+    add("entropy_score", "otsu.entropy_score", "DU", lambda d, w: O.entropy_score(d, 8, w))
+    add("otsu.weighted_variance", "otsu.weighted_variance", "D",
+        lambda d: O.weighted_variance(d, d, 3, 17))
+    add("otsu_entropy", "otsu.otsu_entropy", "D",
+        lambda d: O.otsu_entropy(d, d, 3, 17))
+    add("lapjv+arrays", "lapjv.lapjv", "abc", LJ.lapjv)
+    add("lapjv+arrays-dual", "lapjv.lapjv", "abc", lambda a, b, c: LJ.lapjv(a, b, c, True, 3))
+    add("zernike+arrays", "zernike.zernike", "zLx", Z.zernike)
+    add("construct_zernike_lookuptable", "zernike.construct_zernike_lookuptable", "z", Z.construct_zernike_lookuptable)
+    add("construct_zernike_polynomials+arrays", "zernike.construct_zernike_polynomials", "VXzKW",
+        Z.construct_zernike_polynomials)
+    add("construct_zernike_polynomials+xy", "zernike.construct_zernike_polynomials", "VXz",
+        Z.construct_zernike_polynomials)
+    add("score_zernike", "zernike.score_zernike", "zLx",
+        lambda zi, l, x: Z.score_zernike(Z.construct_zernike_polynomials(*(np.mgrid[-1:1:complex(0, l.shape[0]), -1:1:complex(0, l.shape[1])]), zernike_indexes=zi),
+                                         np.array([4.0, 4.0, 4.0]), l, x))
+    add("score_zernike+radii", "zernike.score_zernike", "zLxA",
+        lambda zi, l, x, rad: Z.score_zernike(Z.construct_zernike_polynomials(*(np.mgrid[-1:1:complex(0, l.shape[0]), -1:1:complex(0, l.shape[1])]), zernike_indexes=zi),
+                                              rad, l, x))
+    add("haralick.minimum", "haralick.minimum", "ILx", Hk.minimum)
+    add("haralick.maximum", "haralick.maximum", "ILx", Hk.maximum)
+    add("haralick.normalized_per_object", "haralick.normalized_per_object", "IL", Hk.normalized_per_object)
+    add("haralick.quantize", "haralick.quantize", "I", lambda a: Hk.quantize(a, 8))
     add("stretch", "filter.stretch", "I", F.stretch)
     add("stretch+mask", "filter.stretch", "IM", F.stretch)
     add("unstretch", "filter.unstretch", "I", lambda a: F.unstretch(a, 0.25, 4.0))
@@ -345,6 +464,16 @@ def _kalman(a):
     return [k.state_vec, k.state_cov, k.noise_var, k.state_noise, k.state_noise_idx, k.predicted_obs_vec]
 
 
+def _kalman2(old, coords, q, r):
+    import centrosome.filter as F
+    k = F.static_kalman_model()
+    k = F.kalman_filter(k, -np.ones(3, int), coords, q, r)
+    k = F.kalman_filter(k, old, coords, q, r)
+    k2 = k.deep_copy()
+    return [k.state_vec, k.state_cov, k.noise_var, k.state_noise, k.state_noise_idx, k2.predicted_obs_vec,
+            k.state_len, k.obs_len]
+
+
 def _lapjv(a):
     import centrosome.lapjv as LJ
     n = 5
@@ -363,8 +492,87 @@ def catalog():
     return _CAT
 
 
+def drives_main():
+    """which (function, parameter) pairs does each catalog call feed DIRECTLY with a caller-owned array of
+    the history (identity of the object)?  Every function of the eleven modules is wrapped; each catalog
+    call is executed once on base dtypes.  Prints {key: [[function, parameter, role], ...]} and the run time
+    and outcome of every call."""
+    import importlib
+    import inspect
+    import types
+    import functools
+    _ensure_imported()
+    cat = catalog()
+    state = {"depth": 0, "ids": {}, "seen": None}
+    mods = {m: importlib.import_module("centrosome." + m) for m in MODS}
+
+    def wrap(qual, fn):
+        try:
+            sig = inspect.signature(fn)
+        except (TypeError, ValueError):
+            return fn
+
+        @functools.wraps(fn)
+        def w(*a, **k):
+            if state["seen"] is not None:
+                try:
+                    ba = sig.bind(*a, **k)
+                    for pn, v in ba.arguments.items():
+                        for x in ([v] + list(v) if isinstance(v, (tuple, list)) else [v]):
+                            if id(x) in state["ids"]:
+                                state["seen"].add((qual, pn, state["ids"][id(x)], state["depth"]))
+                except TypeError:
+                    pass
+            state["depth"] += 1
+            try:
+                return fn(*a, **k)
+            finally:
+                state["depth"] -= 1
+        return w
+    wrapped = {}
+    for m, mod in mods.items():
+        for name, v in list(vars(mod).items()):
+            if isinstance(v, types.FunctionType) and (v.__module__ or "").startswith("centrosome."):
+                q = v.__module__.split(".", 1)[1] + "." + v.__name__
+                if id(v) not in wrapped:
+                    wrapped[id(v)] = wrap(q, v)
+                setattr(mod, name, wrapped[id(v)])
+            elif isinstance(v, type) and v.__module__ == mod.__name__:
+                for mn, mv in list(vars(v).items()):
+                    if isinstance(mv, types.FunctionType):
+                        setattr(v, mn, wrap("%s.%s.%s" % (m, v.__name__, mn), mv))
+    global _CAT
+    _CAT = None
+    cat = catalog()                      # rebuilt: the lambdas now see the wrapped functions
+    rng = np.random.RandomState(0)
+    case = _mk_case(None, rng, [[c[0], c[1], c[2]] for c in cat], calls=[[c[0], 0] for c in cat])
+    for k in case["dt"]:
+        case["dt"][k] = {"I": "float64", "B": "bool", "M": "bool", "L": "int32"}.get(k[0]) or ROLE_DTYPES[k[0]][0]
+        case["lay"][k] = "C"
+    pool, bases = build_pool(case)
+    state["ids"] = {id(a): k for k, a in pool.items()}
+    catd = {c[0]: c for c in cat}
+    out, info = {}, {}
+    for c in cat:
+        state["seen"] = set()
+        t0 = time.time()
+        r = _exec_call(catd, [c[0], 0], pool)
+        info[c[0]] = [round(time.time() - t0, 3), r.get("exc", ""), r.get("msg", "")[:100]]
+        out[c[0]] = sorted([q, pn, key[0]] for (q, pn, key, d) in state["seen"] if d == 0)
+    print("C20DRIVES " + json.dumps({"drives": out, "info": info}))
+
+
 # catalog keys/roles/function names must be known to the generator without importing centrosome:
 # the table is produced once in the staged interpreter and cached per run
+def _drives(ctx):
+    key = ("drives", ctx.scratch)
+    if key not in _SIDE:
+        out = ctx.run_staged_python("import harness.props.c20 as P; P.drives_main()", timeout=600)
+        line = [l for l in out.splitlines() if l.startswith("C20DRIVES ")][-1]
+        _SIDE[key] = json.loads(line[10:])
+    return _SIDE[key]
+
+
 def _catalog_index(ctx):
     key = ("cat", ctx.scratch)
     if key not in _SIDE:
@@ -387,12 +595,69 @@ ROLE_DTYPES = {
 }
 LAYOUTS = ["C", "F", "view", "ro"]
 
+_INTS = ["int32", "int64", "int64", "uint8", "uint32"]
+_FLTS = ["float64", "float64", "float32"]
+_ANY = ["bool", "uint8", "int32", "int64", "float32", "float64"]
+# small caller-owned arrays for every optional / auxiliary array-like parameter (footprints, structures,
+# tables, index lists, offsets, kernels, cost vectors, point lists ...): role -> (values, dtypes it is tried in).
+# The first dtype listed is the one the library converts to ("already the target dtype": what asarray /
+# astype(copy=False) / ravel / reshape alias instead of copying).
+SMALL = {
+    "f": (lambda: np.array([[0, 1, 0], [1, 1, 1], [0, 1, 0]]), ["bool", "bool"] + _ANY),        # footprint
+    "s": (lambda: np.ones((3, 3), int), ["bool", "bool"] + _ANY),                               # structure
+    # boolean-only footprints (already the target dtype of every conversion), shared by grey_reconstruction and
+    # other footprint-taking calls.  (Before /repo 6f73ae9 grey_reconstruction indexed its offset grid with an
+    # integer footprint - fancy indexing instead of masking - and ran the compiled loop on garbage strides.)
+    "G": (lambda: np.array([[1, 1, 1], [1, 1, 1], [0, 1, 0]]), ["bool"]),
+    "H": (lambda: np.ones((3, 3), int), ["bool"]),
+    "S": (lambda: np.array([[1, 1, 1], [0, 0, 0], [0, 0, 0]]), ["bool", "bool", "uint8", "int64"]),   # 2nd strel
+    "T": (lambda: np.array([[0, 0, 0], [0, 1, 0], [1, 1, 1]]), ["bool", "bool", "uint8", "int64"]),   # 1st strel
+    "x": (lambda: np.array([1, 2, 3]), ["int32"] + _INTS),                                      # index list
+    "t": (lambda: (np.arange(512) % 3 == 0) & ((np.arange(512) & 16) != 0), ["bool", "bool", "uint8", "int32", "int64"]),
+    "k": (lambda: np.array([[1, 2, 1], [2, 4, 2], [1, 2, 1]]) / 16.0, _FLTS),                   # convolution kernel
+    "o": (lambda: np.array([1, 1]), ["int64", "int32", "int64", "uint8"]),                      # footprint offset
+    "a": (lambda: np.repeat(np.arange(5), 5), ["uint32", "int32", "int64", "uint32"]),          # lapjv i
+    "b": (lambda: np.tile(np.arange(5), 5), ["uint32", "int32", "int64", "uint32"]),            # lapjv j
+    "c": (lambda: ((np.arange(25) * 7) % 11 + 1) / 4.0, _FLTS),                                 # lapjv costs
+    "h": (lambda: np.array([[0, 0], [0, 6], [6, 6], [6, 0]]), ["float64", "int32", "int64", "float32", "float64"]),
+    "i": (lambda: np.array([[9, 9], [9, 14], [14, 14], [14, 9]]), ["float64", "int32", "int64", "float32", "float64"]),
+    "j": (lambda: np.array([[3, 1], [2, 5], [7, 4], [5, 8]]), ["float64", "int32", "int64", "float32", "float64"]),
+    "z": (lambda: np.array([[0, 0], [1, 1], [2, 0], [2, 2], [3, 1], [3, 3]]), ["intc", "int32", "int64"]),
+    "d": (lambda: np.array([1, 2, 8, 3]), ["int64", "int32", "int64"]),                         # line end points
+    "e": (lambda: np.array([1, 7, 2, 3]), ["int64", "int32", "int64"]),
+    "g": (lambda: np.array([9, 2, 1, 3]), ["int64", "int32", "int64"]),
+    "y": (lambda: np.array([4, 7, 9, 8]), ["int64", "int32", "int64"]),
+    "n": (lambda: np.array([0, 1, 2]), ["int64", "int32", "int64"]),                            # kalman old indices
+    "m": (lambda: np.array([[1.0, 2.0], [5.0, 4.5], [8.0, 1.5]]), _FLTS),                       # kalman coordinates
+    "Q": (lambda: np.tile(np.eye(2) * 0.5, (3, 1, 1)), ["float64"]),
+    "R": (lambda: np.tile(np.eye(2) * 0.25, (3, 1, 1)), ["float64"]),
+    "P": (lambda: np.array([[1, 0, 0], [1, 0, 5], [1, 5, 5], [1, 5, 0], [2, 6, 6], [2, 6, 9], [2, 9, 9],
+                            [3, 10, 10], [3, 10, 12], [3, 12, 11]]),
+          ["int32", "int64", "int32"]),                                                        # convex hull points
+    "N": (lambda: np.array([4, 3, 3]), ["int32", "int64", "int32"]),                            # ... and counts
+    "V": (lambda: (np.mgrid[0:5, 0:5][0] - 2) / 4.0, _FLTS),                                    # zernike x
+    "X": (lambda: (np.mgrid[0:5, 0:5][1] - 2) / 4.0, _FLTS),                                    # zernike y
+    "K": (lambda: np.abs(np.mgrid[0:5, 0:5][0] - 2) + np.abs(np.mgrid[0:5, 0:5][1] - 2) < 4, ["bool"]),
+    "A": (lambda: np.array([4.0, 4.5, 3.5]), _FLTS),                                            # radii
+    "D": (lambda: np.sort(((np.arange(40) * 37) % 101) / 101.0), _FLTS),                        # sorted 1-D data
+    "W": (lambda: ((np.arange(25).reshape(5, 5) * 3) % 7 + 1.0), _FLTS),                        # edge weights
+    "J": (lambda: np.array([[1, 1, 1], [1, 2, 1], [2, 1, 1], [2, 2, 1], [5, 5, 2], [5, 6, 2], [6, 5, 2], [7, 7, 3]]),
+          ["int32", "int64", "int32"]),                                                        # i, j, label rows
+    "v": (lambda: np.array([1, 1, 2, 2, 5, 5, 6, 7]), ["int32", "int64", "int32"]),             # ijv: i
+    "u": (lambda: np.array([1, 2, 1, 2, 5, 6, 5, 7]), ["int32", "int64", "int32"]),             # ijv: j
+    "w": (lambda: np.array([1, 1, 1, 1, 2, 2, 2, 3]), ["int32", "int64", "int32"]),             # ijv: labels
+    "U": (lambda: np.array([.5, .25, 1., .75, .5, .5, .25, 1.]), _FLTS),                        # ijv: weights
+}
+for _r, (_g, _d) in SMALL.items():
+    ROLE_DTYPES[_r] = _d
 
-ROLES = "IBMLpqr"
+ROLES = "IBMLpqr" + "".join(sorted(SMALL))
 
 
 def _content(role, shape, rng):
     H, W = shape
+    if role in SMALL:
+        return SMALL[role][0]()
     if role in "pqr":
         return np.round(rng.rand(2) * 20 + {"p": 0, "q": 3, "r": 7}[role], 0)
     if role == "I":
@@ -429,6 +694,12 @@ def _cast(role, a, dt):
 
 def _slice_view(a):
     """a as a non-contiguous view cut out of a larger array filled with other values"""
+    if a.ndim > 2:
+        big = np.zeros(tuple(2 * s + 1 for s in a.shape), a.dtype)
+        big[...] = 7
+        sl = tuple(slice(1, 1 + 2 * s, 2) for s in a.shape)
+        big[sl] = a
+        return big[sl], big
     if a.ndim == 1:
         big = np.zeros(a.shape[0] * 2 + 3, a.dtype)
         big[...] = 7
@@ -452,6 +723,17 @@ def _layout(a, lay):
     return b, None
 
 
+def _norm(case):
+    """older corpus / replay files do not name the roles added later: base dtype, C layout"""
+    for si in range(len(case["shapes"])):
+        for role in ROLES:
+            key = "%s%d" % (role, si)
+            case["dt"].setdefault(key, {"I": "float64", "B": "bool", "M": "bool", "L": "int32"}.get(role)
+                                  or ROLE_DTYPES[role][0])
+            case["lay"].setdefault(key, "C")
+    return case
+
+
 def build_pool(case, writable=False, only_keys=None):
     """the shared input arrays of a history: {key: array}, plus the big arrays views are cut from"""
     pool, bases = {}, {}
@@ -460,7 +742,7 @@ def build_pool(case, writable=False, only_keys=None):
             key = "%s%d" % (role, si)
             if only_keys is not None and key not in only_keys:
                 continue
-            rng = np.random.RandomState((case["seed"] * 16 + si * 8 + ROLES.index(role)) & 0x7FFFFFFF)
+            rng = np.random.RandomState((case["seed"] * 128 + si * 64 + ROLES.index(role)) & 0x7FFFFFFF)
             a = _cast(role, _content(role, shape, rng), case["dt"][key])
             lay = case["lay"][key]
             if writable and lay == "ro":
@@ -686,6 +968,7 @@ def _run_history(case, only=None, scramble=None, writable=False, light=False, ca
     """run the calls of the case (or only call number `only`) in this process; per call: result digest,
     input differences, module-state changes, generator state"""
     cat = {c[0]: c for c in catalog()}
+    _norm(case)
     if scramble is not None:
         np.random.seed(scramble & 0x7FFFFFFF)
         np.random.rand(scramble % 17)
@@ -740,6 +1023,12 @@ def _fork(fn, timeout=60):
         code = 0
         try:
             os.close(r)
+            try:                                    # never keep the worker's stderr pipe open in a child
+                dn = os.open(os.devnull, os.O_WRONLY)
+                os.dup2(dn, 2)
+                os.dup2(dn, 1)
+            except OSError:
+                pass
             signal.alarm(0)
             signal.signal(signal.SIGALRM, signal.SIG_DFL)
             try:
@@ -817,6 +1106,7 @@ def _ensure_imported():
 def impl(case):
     global _LAZY
     _ensure_imported()
+    _norm(case)
     _LAZY = set(case.get("lazy", [])) or None
     n = len(case["calls"])
     cat = {c[0]: c for c in catalog()}
@@ -834,9 +1124,17 @@ def impl(case):
     for k in twin:
         jobs.append(lambda k=k: _run_history(case, only=k, scramble=case["scramble"] + 104729 * (k + 1), light=True,
                                              canon=True, ser=True)[0])
-    res = _parallel(jobs, width=int(os.environ.get("C20_WIDTH", "4")), timeout=CASE_TIMEOUT // 2)
+    res = _parallel(jobs, width=int(os.environ.get("C20_WIDTH", "4")), timeout=FORK_TIMEOUT)
+    # a crashed child is run once more: only a crash that repeats is charged to the library
+    out_flaky = 0
+    for i, r in enumerate(res):
+        if isinstance(r, dict) and "crash" in r:
+            r2 = _parallel([jobs[i]], width=1, timeout=FORK_TIMEOUT)[0]
+            if not (isinstance(r2, dict) and "crash" in r2):
+                res[i] = r2
+                out_flaky += 1
     hist, refs, canon = res[0], res[1:n + 1], res[n + 1:]
-    out = {"hist": hist, "refs": refs, "probes": {}, "layout": {}}
+    out = {"hist": hist, "refs": refs, "probes": {}, "layout": {}, "flaky_crashes": out_flaky}
     for k, c in zip(twin, canon):
         r = refs[k]
         if not (isinstance(r, dict) and isinstance(c, dict)):
@@ -866,7 +1164,7 @@ def impl(case):
                 if used & ro_keys:
                     todo.append(k)
         pr = _parallel([lambda k=k: _run_history(case, only=k, scramble=1, writable=True, light=True)[0] for k in todo],
-                       width=4, timeout=CASE_TIMEOUT // 4)
+                       width=4, timeout=FORK_TIMEOUT)
         for k, p in zip(todo, pr):
             out["probes"][str(k)] = p
     return out
@@ -885,9 +1183,13 @@ def single_main():
 # =========================================================================== generation
 
 def _mk_case(ctx, rng, cat, calls=None, length=None, shapes=None):
-    shapes = shapes or [[int(rng.randint(10, 17)), int(rng.randint(10, 17))], [int(rng.randint(10, 14)), int(rng.randint(10, 14))]]
+    # three input sets of DIFFERENT sizes (large, medium, tiny) so that a history runs the same function on
+    # inputs of different sizes in both orders
+    shapes = shapes or [[int(rng.randint(11, 18)), int(rng.randint(11, 18))],
+                        [int(rng.randint(6, 11))] * 2,           # square (angular_distribution accepts nothing else)
+                        [int(rng.randint(3, 6)), int(rng.randint(3, 6))]]
     dt, lay = {}, {}
-    for si in range(2):
+    for si in range(len(shapes)):
         for role in ROLES:
             key = "%s%d" % (role, si)
             dt[key] = str(rng.choice(ROLE_DTYPES[role]))
@@ -900,17 +1202,27 @@ def _mk_case(ctx, rng, cat, calls=None, length=None, shapes=None):
             if calls and u < 0.22:
                 # repetition of an earlier call, on the same or on the other input set
                 key, si = calls[int(rng.randint(len(calls)))]
-                calls.append([key, si if rng.rand() < 0.4 else 1 - si])
+                calls.append([key, si if rng.rand() < 0.3 else _other_set(rng, si, len(shapes))])
             elif u < 0.45:
                 key = str(rng.choice(_STATEFUL_KEYS(cat)))
-                calls.append([key, int(rng.randint(2))])
+                calls.append([key, _pick_set(rng, len(shapes))])
             else:
                 key = cat[int(rng.randint(len(cat)))][0]
-                calls.append([key, int(rng.randint(2))])
+                calls.append([key, _pick_set(rng, len(shapes))])
     side = _side_or_none(ctx) if ctx is not None else None
-    return {"seed": int(rng.randint(1 << 30)), "scramble": int(rng.randint(1 << 30)), "shapes": shapes,
+    roles = {c[0]: c[2] for c in cat}
+    used = sorted({"%s%d" % (r, si) for key, si in calls for r in roles.get(key, "")})
+    return {"used": used, "seed": int(rng.randint(1 << 30)), "scramble": int(rng.randint(1 << 30)), "shapes": shapes,
             "dt": dt, "lay": lay, "calls": calls,
             "lazy": side["lazy"] if side else []}
+
+
+def _pick_set(rng, n):
+    return int(rng.choice(n, p=[0.45, 0.35, 0.2][:n])) if n == 3 else int(rng.randint(n))
+
+
+def _other_set(rng, si, n):
+    return int(rng.choice([s for s in range(n) if s != si]))
 
 
 _SF = {}
@@ -928,8 +1240,26 @@ def _STATEFUL_KEYS(cat):
     return _SF[k]
 
 
+def _coverage_counts(ctx):
+    try:
+        drives = _drives(ctx)["drives"]
+    except Exception as e:
+        ctx.note("drive table unavailable: %s" % str(e)[:200])
+        return
+    driven = {(f, p) for v in drives.values() for f, p, r in v}
+    ctx.count("catalog.calls", len(drives))
+    ctx.count("catalog.function_parameter_pairs_fed_caller_arrays", len(driven))
+    side = _side_or_none(ctx)
+    if side:
+        und = [e["name"] + ":" + p for e in side["functions"] if e["public"] and not e["exempt"]
+               for p in e.get("array_params", []) if (e["name"], p) not in driven]
+        ctx.count("catalog.array_like_parameters_not_fed", len(und))
+        ctx.note("array-like parameters of public functions never fed a caller-owned array: " + ", ".join(und))
+
+
 def generate(ctx):
     cat = _catalog_index(ctx)
+    _coverage_counts(ctx)
     rng = ctx.rng
     cases = []
     corpus = os.path.join(_VERIF, "corpus", "C20")
@@ -939,6 +1269,7 @@ def generate(ctx):
                 with open(os.path.join(corpus, f)) as fh:
                     c = json.load(fh)
                 c["lazy"] = (_side_or_none(ctx) or {"lazy": []})["lazy"]
+                _norm(c)
                 cases.append(c)
                 ctx.count("corpus")
     # every catalog entry at least once per run: short histories (entry on set 0, entry on set 1)
@@ -951,6 +1282,8 @@ def generate(ctx):
             calls.append([keys[i], 0])
         for i in order[s:s + per][:2]:
             calls.append([keys[i], 1])
+        for i in order[s:s + per][2:3]:
+            calls.append([keys[i], 2])
         cases.append(_mk_case(ctx, rng, cat, calls=calls))
         ctx.count("sweep")
     # ordered pairs of the calls that fill lazily built tables or draw random numbers, each on both
@@ -958,11 +1291,11 @@ def generate(ctx):
     sk = _STATEFUL_KEYS(cat)
     for a in sk:
         for b in sk:
-            if ctx.quick() and rng.rand() > 0.08:
+            if rng.rand() > ctx.n(0.05, 0.4):
                 continue
-            cases.append(_mk_case(ctx, rng, cat, calls=[[a, 0], [b, 1], [a, 1], [b, 0]]))
+            cases.append(_mk_case(ctx, rng, cat, calls=[[a, 0], [b, 1], [a, 1], [b, 0], [a, 2], [b, 2], [a, 0]]))
             ctx.count("stateful_pairs")
-    for _ in range(ctx.n(200, 2400)):
+    for _ in range(ctx.n(200, 2000)):
         cases.append(_mk_case(ctx, rng, cat))
         ctx.count("random")
     for c in cases:
@@ -993,6 +1326,41 @@ def _model_witnesses(ctx):
     return pairs, alone
 
 
+def _candidate_cases(ctx, rng, cat, side):
+    """a static in-place candidate (function, parameter) of the translator -> histories that call exactly
+    that function with that parameter passed explicitly as a caller-owned array, in every dtype the role
+    is tried in (first: the dtype the library converts to, which asarray/astype(copy=False)/ravel alias) and
+    the layouts {C, Fortran, view}, followed by other calls sharing the same array and the call again"""
+    try:
+        drives = _drives(ctx)["drives"]
+    except Exception as e:
+        ctx.note("drive table unavailable: %s" % str(e)[:200])
+        return []
+    cases = []
+    for e in side["functions"]:
+        if not e["inplace"] or e["exempt"]:
+            continue
+        for _, line, form, pname in e["inplace"]:
+            hits = [(k, r) for k, v in drives.items() for f, p, r in v if f == e["name"] and p == pname]
+            if not hits:
+                if e["public"]:
+                    ctx.note("catalog gap: no call passes %s(%s=...) a caller-owned array" % (e["name"], pname))
+                ctx.count("search.candidate_without_catalog_call")
+                continue
+            ctx.count("search.candidate_instantiated")
+            for key, role in hits[:6]:
+                sharing = [k for k, v in drives.items() if k != key and any(r == role for _, _, r in v)]
+                for dt in dict.fromkeys(ROLE_DTYPES[role]):
+                    for lay in ("C", "F", "view"):
+                        others = [str(rng.choice(sharing)) for _ in range(2)] if sharing else []
+                        calls = [[key, 0]] + [[o, 0] for o in others] + [[key, 0]]
+                        c = _mk_case(ctx, rng, cat, calls=calls)
+                        c["dt"]["%s0" % role] = dt
+                        c["lay"]["%s0" % role] = lay
+                        cases.append(c)
+    return cases[:600]
+
+
 def search_cases(ctx, rnd):
     """after a broken obligation: (round 0) the histories on which the state machine built from the
     regenerated table itself predicts a history-dependent result, instantiated with every catalog call
@@ -1004,6 +1372,10 @@ def search_cases(ctx, rnd):
     if side is None:
         return [_mk_case(ctx, rng, cat) for _ in range(200)]
     if rnd == 0:
+        cand = _candidate_cases(ctx, rng, cat, side)
+        if cand:
+            return cand
+    if rnd <= 1:
         try:
             pairs, alone = _model_witnesses(ctx)
         except Exception as e:                      # the model may not build when the table is malformed
@@ -1035,7 +1407,7 @@ def search_cases(ctx, rnd):
             return cases
     flagged = set()
     for e in side["functions"]:
-        if any(k != 0 for _, k in e["fills"]) or e["unguarded_reads"] or (e["draws_global"] and not e["seed_dominated"]) \
+        if any(k not in (0, 3) for _, k in e["fills"]) or e["unguarded_reads"] or (e["draws_global"] and not e["seed_dominated"]) \
                 or e["entropy"] or (e["inplace"] and not e["exempt"]):
             flagged.add(e["name"])
     keys = [c[0] for c in cat if c[1] in flagged]
@@ -1158,6 +1530,8 @@ def check(ctx, cases, outs):
             ctx.count("calls")
             if "exc" in rec:
                 ctx.count("calls.rejected_consistently")
+        if o.get("flaky_crashes"):
+            ctx.count("child_crash_not_repeated", o["flaky_crashes"])
         for k, lay in o.get("layout", {}).items():
             ctx.count("layout_twin." + lay[0])
             if lay[0] == "rounding":
@@ -1294,12 +1668,15 @@ def shrink_candidates(case):
             yield c
             c = dict(case); c["calls"] = calls[:n // 2]
             yield c
+    used = set(case.get("used") or case["lay"])
     for key in case["lay"]:
-        if case["lay"][key] != "C":
+        if key in used and case["lay"][key] != "C":
             c = dict(case); c["lay"] = dict(case["lay"]); c["lay"][key] = "C"
             yield c
     for key in case["dt"]:
-        base = {"I": "float64", "B": "bool", "M": "bool", "L": "int32"}.get(key[0], "float64")
+        if key not in used:
+            continue
+        base = {"I": "float64", "B": "bool", "M": "bool", "L": "int32"}.get(key[0]) or ROLE_DTYPES[key[0]][0]
         if case["dt"][key] != base:
             c = dict(case); c["dt"] = dict(case["dt"]); c["dt"][key] = base
             yield c
